@@ -136,6 +136,19 @@ func (e *kvElection) checkKeyAndReelect(ctx context.Context) {
 	}
 }
 
+// noteObservedLeader records the leader a follower has been told about. An instance that has
+// become leader in the meantime (in another goroutine; becomeLeader sets the same fields under
+// the same mutex) keeps its own identity and revision: the notification is older than its record.
+func (e *kvElection) noteObservedLeader(leaderID string, revision uint64) {
+	e.mu.Lock()
+	defer e.mu.Unlock()
+	if e.isLeader.Load() {
+		return
+	}
+	e.leaderID.Store(leaderID)
+	e.revision.Store(revision)
+}
+
 // handleWatchEvent processes watch events and triggers re-election when the key is deleted
 // or becomes empty. It also updates the leader ID when a new leader is detected.
 func (e *kvElection) handleWatchEvent(entry Entry) {
@@ -208,12 +221,10 @@ func (e *kvElection) handleWatchEvent(entry Entry) {
 				zap.Uint64("revision", entry.Revision()),
 			)...,
 		)
-		e.leaderID.Store(newLeaderID)
-		e.revision.Store(entry.Revision())
+		e.noteObservedLeader(newLeaderID, entry.Revision())
 		return
 	}
-	e.leaderID.Store(newLeaderID)
-	e.revision.Store(entry.Revision())
+	e.noteObservedLeader(newLeaderID, entry.Revision())
 
 	// Check if we should attempt priority takeover
 	if e.cfg.AllowPriorityTakeover && e.cfg.Priority > payload.Priority {
